@@ -40,9 +40,10 @@ class SetCell:
 
 class St:
     """Immutable-by-convention state; every update returns a new St."""
-    __slots__ = ("pc", "env", "heap", "alive", "warned", "facts", "fr")
+    __slots__ = ("pc", "env", "heap", "alive", "warned", "facts", "fr", "ghost")
 
-    def __init__(self, pc=(), env=None, heap=None, alive=None, warned=None, facts=(), fr=None):
+    def __init__(self, pc=(), env=None, heap=None, alive=None, warned=None, facts=(), fr=None, ghost=None):
+        self.ghost = ghost or {}
         self.pc = pc
         self.env = env or {}
         self.heap = heap or {}
@@ -52,7 +53,7 @@ class St:
         self.fr = fr
 
     def but(self, **kw):
-        s = St(self.pc, self.env, self.heap, self.alive, self.warned, self.facts, self.fr)
+        s = St(self.pc, self.env, self.heap, self.alive, self.warned, self.facts, self.fr, self.ghost)
         for k, v in kw.items():
             setattr(s, k, v)
         return s
@@ -133,6 +134,8 @@ def fresh_value(st: St, ty, name: str) -> Tuple[SV, St]:
     """A fresh symbolic value of type ty (allocating heap cells for mutable types)."""
     if ty == "none":
         return SNone(), st
+    if ty == "opaque" or (isinstance(ty, tuple) and ty[0] == "obj" and ty[1] == "opaque"):
+        return S.SOpaqueObj(name), st
     if isinstance(ty, str):
         t = S.fresh(name, S.sort_of(ty))
         for c in value_inv(ty, t):
